@@ -24,13 +24,14 @@ def queries():
         defs = [f'H_OPSEL(op)=({opsel})', f'H_N={n}', f'VERIF_STACK_W={max(w, 1)}', f'VERIF_ITEM_CAP={k}', 'H_AN=0'] + extra
         return Query(name, 'harness', unit_step_ext, 'h_step', defines=defs, unwind=max(k + 2, 34), timeout=timeout, object_bits=12, tier=tier,
                      bounded=f'stack element storage {k} bytes (consensus maximum 520)', functions=FN, replay=REPLAY_STEP)
-    HARD = {'mul': (2, 3), 'div': (2, 3), 'mod': (2, 3)}   # SAT cannot decide full-width multiply/divide equivalence: (quick, thorough) operand bytes of the value query
+    HARD = {'mul': (2, 3), 'div': (2, None), 'mod': (2, None)}   # SAT cannot decide full-width multiply/divide equivalence: (quick, thorough) operand bytes of the value query; 3-byte DIV / MOD: > 3000 s, dropped
     for (name, b, k, kq, kt, extra) in EXT:
         if name in HARD:
             # full operand width: verdict, error selection, traps (division by zero, overflow), depth, frame -- not the result bytes
             q = mk(f'ext_{name}_shape', f'op=={b:#x}', k, k, extra + ['H_EXEC=1', 'H_ALLOW_DISABLED=1', 'H_SKIP_TOP_VALUE'], 'quick', kq)
             q.note = 'result value excluded (see *_value)'; qs.append(q)
             for tier, nb in (('quick', HARD[name][0]), ('thorough', HARD[name][1])):
+                if nb is None: continue
                 q = mk(f'ext_{name}_value{nb}', f'op=={b:#x}', k, k, [e for e in extra if e != 'H_CANARY_EXC'] + ['H_EXEC=1', 'H_ALLOW_DISABLED=1', f'H_ITEM_MAXLEN={nb}'], tier, kq, timeout=3000)
                 q.backend = 'kissat'
                 q.bounded = f'result VALUE of OP_{name.upper()} decided for operands of at most {nb} bytes only (bounded stand-in: SAT does not decide 64-bit multiply/divide equivalence); verdict, traps and frame are decided at full width by ext_{name}_shape'
